@@ -116,6 +116,11 @@ pub fn run(_tier: Tier, report: &mut Report) {
                         report.count("rejected", 1);
                     }
                     report.outcome(format!("{accepted}:{}", verdict.is_some()));
+                    if matches!(&verdict, Some((k, _)) if k == "panic") {
+                        // nothing was accepted: a panic is C05's question, not C06's
+                        report.count("executions_that_panicked (not judged here, see C05)", 1);
+                        continue;
+                    }
                     if let Some((k, why)) = verdict {
                         report.violation(format!("btor2/accepted-meaning/{k}"), format!("btor2 accepts {:?}: {why}", show(&doc)), json!({"property": "C06", "subject": "btor2", "input_hex": hex(&doc), "input": show(&doc), "justice": justice}), doc.len() as u64);
                     }
@@ -131,7 +136,7 @@ pub fn run(_tier: Tier, report: &mut Report) {
 pub fn replay(v: &mc_core::Value) -> (bool, String) {
     let input = unhex(v["input_hex"].as_str().unwrap());
     let (accepted, verdict) = judge(&input, v["justice"].as_bool().unwrap_or(false));
-    (verdict.is_some(), format!("btor2 on {:?}: accepted={accepted} {:?}\n  parse: {:?}\n", show(&input), verdict, parse_all(&input)))
+    (verdict.as_ref().map_or(false, |(k, _)| k != "panic"), format!("btor2 on {:?}: accepted={accepted} {:?}\n  parse: {:?}\n", show(&input), verdict, parse_all(&input)))
 }
 
 pub const RULE: &str = "BTOR2: line templates with one varying number position (node id, sort id, bit width, array sorts, operands, slice/extension indices, assignment and output operands, justice conditions) x boundary numbers x leading zero x trailing comment; accepted => the multiset of numbers in the returned line equals the numbers written in the text (big decimals). Non-trivial = accepted documents";
